@@ -2,6 +2,7 @@ package fsm
 
 import (
 	"sort"
+	"strings"
 
 	"fmt"
 
@@ -125,7 +126,7 @@ func (s *State) has(tr *Transition) bool {
 // Parse tries to navigate into the FSM according to the provided args
 func (s *State) Parse(args []string) error {
 	pc := matcher.NewParseContext()
-	ok := s.apply(args, pc)
+	ok := s.apply(args, pc, map[visit]bool{})
 	if !ok {
 		return fmt.Errorf("incorrect usage")
 	}
@@ -156,7 +157,16 @@ func fillContainers(containers map[*container.Container][]string) error {
 	return nil
 }
 
-func (s *State) apply(args []string, pc matcher.ParseContext) bool {
+// visit identifies a configuration of the search: a state, the remaining args and whether options are still accepted.
+// Whether the remaining args can be matched starting from a state only depends on these.
+type visit struct {
+	s             *State
+	args          string
+	nargs         int
+	rejectOptions bool
+}
+
+func (s *State) apply(args []string, pc matcher.ParseContext, visited map[visit]bool) bool {
 	if len(args) > 0 {
 		arg := args[0]
 
@@ -169,6 +179,14 @@ func (s *State) apply(args []string, pc matcher.ParseContext) bool {
 	if s.Terminal && len(args) == 0 {
 		return true
 	}
+
+	// a configuration which is still being explored (cycle of transitions which consume nothing, e.g. env backed
+	// options or -- inside a repetition) or which was already explored without success cannot lead anywhere new
+	here := visit{s, strings.Join(args, "\x00"), len(args), pc.RejectOptions}
+	if visited[here] {
+		return false
+	}
+	visited[here] = true
 
 	type match struct {
 		tr  *Transition
@@ -186,7 +204,7 @@ func (s *State) apply(args []string, pc matcher.ParseContext) bool {
 	}
 
 	for _, m := range matches {
-		if ok := m.tr.Next.apply(m.rem, m.pc); ok {
+		if ok := m.tr.Next.apply(m.rem, m.pc, visited); ok {
 			pc.Merge(m.pc)
 			return true
 		}
